@@ -97,10 +97,14 @@ def simple_translate(
     default: str | None = None
 ) -> str:
 
-    if default is None:
-        default = getattr(msgid, "default", msgid)
+    # A message object is a string that carries its default text and
+    # its mapping; any other object merely has attributes by these names.
+    message = isinstance(msgid, str)
 
-    if mapping is None:
+    if default is None:
+        default = getattr(msgid, "default", msgid) if message else msgid
+
+    if mapping is None and message:
         mapping = getattr(msgid, "mapping", None)
 
     if mapping:
